@@ -217,6 +217,13 @@ func siteMatches(p *Program, pat string, in ssa.Instruction) (string, bool) {
 			return "call through " + f[1], true
 		}
 		return "", false
+	case "send":
+		// `send PATTERN`: a send on a channel whose access path matches
+		sd, ok := in.(*ssa.Send)
+		if !ok || !pathMatches(valuePath(sd.Chan), f[1]) {
+			return "", false
+		}
+		return "send on " + valuePath(sd.Chan), true
 	case "recv":
 		// `recv PATTERN`: a receive from a channel whose access path matches
 		u, ok := in.(*ssa.UnOp)
